@@ -22,6 +22,9 @@ func Split(label string, x uint64, max int) uint64
 // raw memory standing for physical / firmware memory. init: 0 = zero-filled, 1 = arbitrary content
 func Region(label string, base, capacity uintptr, init int) []byte
 func Limit(label string, n uintptr)
+
+// Havoc gives the n bytes at p arbitrary content; the rest of the object keeps its value.
+func Havoc(p unsafe.Pointer, n uintptr, label string)
 func InRegion(p unsafe.Pointer, n uintptr, label string) bool
 
 // logic
